@@ -44,7 +44,12 @@ var (
 	signers = map[string]*keys.Key{}
 )
 
+const hsKid = "c01-shared-secret"
+
+var hsSecret = []byte("c01-shared-secret-0123456789abcdef0123456789abcdef0123456789abcdef")
+
 func initKeys() {
+	keySet.byKid[hsKid] = hsSecret
 	var wg sync.WaitGroup
 	var mu sync.Mutex
 	for _, a := range allAlgs {
@@ -131,6 +136,9 @@ func classOf(i int) string {
 func generate(run *ev.Run, i int, grid []gridCell) (*cfg, *vec, int) {
 	r := run.CaseRand(streamCase, i)
 	alg := pick(r, allAlgs...)
+	if r.IntN(12) == 0 {
+		alg = pick(r, hsAlgs...)
+	}
 	class := classOf(i)
 	cell := -1
 	var c *cfg
@@ -185,8 +193,13 @@ func runCase(run *ev.Run, i int, grid []gridCell, verbose bool) int {
 		run.HarnessBug("generated payload is not a JSON object: " + string(raw))
 		return cell
 	}
-	k := signers[v.Alg]
-	token := keys.SignAs(k, k.Alg, k.Kid, raw, v.Typ)
+	var token string
+	if isHS(v.Alg) {
+		token = keys.HMACSign(v.Alg, hsKid, hsSecret, raw)
+	} else {
+		k := signers[v.Alg]
+		token = keys.SignAs(k, k.Alg, k.Kid, raw, v.Typ)
+	}
 	verifier, ctx := c.build(keySet)
 	withAccess := v.Entry == "VerifyTokens[IDTokenClaims]"
 
